@@ -19,8 +19,8 @@ from mc.ref.deps import RefDeps
 def _limit_hours(v):
     import re
 
-    m = re.match(r"(\d+(?:\.\d+)?)(h|d|w)", v)
-    return float(m.group(1)) * {"h": 1, "d": 8, "w": 40}[m.group(2)]
+    m = re.match(r"(\d+(?:\.\d+)?)(min|h|d|w)", v)
+    return float(m.group(1)) * {"min": 1 / 60.0, "h": 1, "d": 8, "w": 40}[m.group(2)]
 
 
 class _Lim:
